@@ -8,6 +8,16 @@ import sys
 VERIF = os.path.dirname(os.path.dirname(os.path.abspath(__file__)))
 
 CLAIMED = {
+    "C08": dict(
+        technique="exhaustive path enumeration of the loop-free decoder (claim_bytes inlined) + comparison of every path outcome with an RFC 8949 reference action table for all 256 initial bytes",
+        text="All paths of cbor_stream_decode are enumerated symbolically-by-construction (terms, no solver) and, for each "
+             "of the 256 initial bytes, status / read / required / the single callback with its argument terms / the claim "
+             "sequence / every read of the buffer are compared with a reference table written from the RFC. Includes the "
+             "wrap obligation on 'required' for decoded 64-bit lengths and the allocates-nothing / stateless effect check. "
+             "Holds for every buffer because the decoder has no loops and the comparison is per path, not per input.",
+        note="Decides the per-call contract exactly up to the numeric value of loader results (byte order: C10; half "
+             "floats: C15). Client callbacks are outside the program.",
+        design="§4 C08"),
     "C13": dict(
         technique="whole-library who-may-call + effect summaries (allocator call graph), block-provenance rule against the extracted constructor table",
         text="Decided as a whole by static who-may-call/effect analysis over all 20 units: external-symbol inventory "
